@@ -152,7 +152,7 @@ def _in_library(e):
 
 class C10(World):
     ID = "C10"
-    RUNS = {"quick": 40000, "thorough": 1500000}
+    RUNS = {"quick": 34000, "thorough": 1500000}
     WALL = {"quick": 110.0, "thorough": 1700.0}
     BLOCK = 60
     RULE = (
